@@ -35,7 +35,7 @@ func alphabet(w *world) []symbol {
 		s = append(s, symbol{"addl", n})
 	}
 	s = append(s, symbol{"price", "105"}, symbol{"price", "0"})
-	for _, h := range []string{"H1", "H1x", "H2", "H0"} {
+	for _, h := range []string{"H1", "H1x", "H2", "H0", "H2x"} {
 		s = append(s, symbol{"head", h})
 	}
 	return s
